@@ -136,7 +136,7 @@ impl MemfsEntry {
                 r.alt.comps() == Seq::<Comp>::empty(), r.rel.comps() == Seq::<Comp>::empty(),
 //@ body
 
-//@ item entry_add file=src/sys/fs/memfs/entry.rs block="impl MemfsEntry" fn=add props=C03,C01,C12
+//@ item entry_add file=src/sys/fs/memfs/entry.rs block="impl MemfsEntry" fn=add props=C03,C01,C12,C09
 //@ sig pub(crate) fn add<T: Into<String>>(&mut self, entry: T) -> RvResult<bool>
 //@ rw R4 1 ⟦let mut files = HashSet::new();⟧ => ⟦let mut files = NameSet::new();⟧
     pub fn add(&mut self, entry: NameStr) -> (r: RvResult<bool>)
@@ -147,7 +147,7 @@ impl MemfsEntry {
                 && (r->Ok_0 == match old(self).ev().kids { Some(k) => !k.contains(entry@), None => true }),     //@ clause entry.add.post [C03,C01]
 //@ body
 
-//@ item entry_remove file=src/sys/fs/memfs/entry.rs block="impl MemfsEntry" fn=remove props=C03,C01,C12
+//@ item entry_remove file=src/sys/fs/memfs/entry.rs block="impl MemfsEntry" fn=remove props=C03,C01,C12,C09
 //@ sig pub(crate) fn remove<T: Into<String>>(&mut self, entry: T) -> RvResult<()>
     pub fn remove(&mut self, entry: NameStr) -> (r: RvResult<()>)
         ensures
@@ -177,13 +177,13 @@ impl MemfsEntry {
 //@ item entry_rel_buf file=src/sys/fs/memfs/entry.rs block="impl Entry for MemfsEntry" fn=rel_buf props=C10,C12
     pub fn rel_buf(&self) -> (r: PathBuf) ensures r.comps() == self.rel.comps()
 //@ body
-//@ item entry_is_dir file=src/sys/fs/memfs/entry.rs block="impl Entry for MemfsEntry" fn=is_dir props=C01,C12
+//@ item entry_is_dir file=src/sys/fs/memfs/entry.rs block="impl Entry for MemfsEntry" fn=is_dir props=C01,C12,C09
     pub fn is_dir(&self) -> (r: bool) ensures r == self.dir
 //@ body
-//@ item entry_is_file file=src/sys/fs/memfs/entry.rs block="impl Entry for MemfsEntry" fn=is_file props=C01,C12
+//@ item entry_is_file file=src/sys/fs/memfs/entry.rs block="impl Entry for MemfsEntry" fn=is_file props=C01,C12,C09
     pub fn is_file(&self) -> (r: bool) ensures r == self.file
 //@ body
-//@ item entry_is_symlink file=src/sys/fs/memfs/entry.rs block="impl Entry for MemfsEntry" fn=is_symlink props=C01,C10,C12
+//@ item entry_is_symlink file=src/sys/fs/memfs/entry.rs block="impl Entry for MemfsEntry" fn=is_symlink props=C01,C10,C12,C09
     pub fn is_symlink(&self) -> (r: bool) ensures r == self.link
 //@ body
 //@ item entry_mode file=src/sys/fs/memfs/entry.rs block="impl Entry for MemfsEntry" fn=mode props=C01,C11,C12
@@ -461,7 +461,7 @@ pub fn exists(guard: &MemfsGuard, path: &PathBuf) -> (r: bool)
     ensures r == (at(guard.st(), path.comps()) is Some)     //@ clause exists.post [C01,C05]
 //@ body
 
-//@ item _is_dir file=src/sys/fs/memfs/vfs.rs block="impl Memfs" fn=_is_dir props=C01,C05,C12
+//@ item _is_dir file=src/sys/fs/memfs/vfs.rs block="impl Memfs" fn=_is_dir props=C01,C05,C12,C09
 //@ rw R10 1 ⟦unwrap_or_false!(self._abs(guard, path))⟧ => ⟦match _abs(guard, path) { Ok(v) => v, Err(_) => return false }⟧
 pub fn _is_dir(guard: &MemfsGuard, path: &PathBuf) -> (r: bool)
     requires guard.st().cwd_ok
@@ -688,7 +688,7 @@ impl MemfsFile {
 #[verifier::external_body]
 pub fn opt_clone_names(o: &Option<NameSet>) -> (r: Option<NameSet>) ensures kids_of(r) == kids_of(*o) { unimplemented!() }
 impl MemfsEntry {
-//@ item entry_clone file=src/sys/fs/memfs/entry.rs block="impl Clone for MemfsEntry" fn=clone props=C01,C12
+//@ item entry_clone file=src/sys/fs/memfs/entry.rs block="impl Clone for MemfsEntry" fn=clone props=C01,C12,C09
 //@ rw R4 1 ⟦self.files.clone()⟧ => ⟦opt_clone_names(&self.files)⟧
 //@ rw R9 1 ⟦Self {⟧ => ⟦MemfsEntry {⟧
     pub fn clone(&self) -> (r: MemfsEntry) ensures r.ev() == self.ev()
